@@ -359,6 +359,7 @@ type Chain struct {
 	Hashes  []chainhash.Hash
 	Filters []*gcs.Filter    // honest basic filter per height
 	Commit  []*gcs.Filter    // the filter the committed header chain commits to
+	Alt     []*gcs.Filter    // another filter per block, for rewritten header chains
 	FHdrs   []chainhash.Hash // committed filter headers 0..FTip
 	FTip    int
 }
@@ -376,6 +377,7 @@ func BuildChain(r *rand.Rand, specs []BlockSpec, ftip int, poisoned map[int]bool
 	}
 	c.Filters = append(c.Filters, gf)
 	c.Commit = append(c.Commit, gf)
+	c.Alt = append(c.Alt, gf)
 	gh, err := builder.MakeHeaderForFilter(gf, chainhash.Hash{})
 	if err != nil {
 		panic(err)
@@ -404,6 +406,11 @@ func BuildChain(r *rand.Rand, specs []BlockSpec, ftip int, poisoned map[int]bool
 			}
 		}
 		c.Commit = append(c.Commit, cf)
+		af, err := builder.BuildBasicFilter(b, [][]byte{RandScript(r), RandScript(r), RandScript(r)})
+		if err != nil {
+			panic(err)
+		}
+		c.Alt = append(c.Alt, af)
 		if h <= ftip {
 			fh, err := builder.MakeHeaderForFilter(cf, c.FHdrs[h-1])
 			if err != nil {
